@@ -77,7 +77,7 @@ func main() {
 	switch prop {
 	case "C05":
 		cmdC05(*tier, *seed, *out, *stats, *replay)
-	case "PKG", "C01", "C03", "C04", "C08", "C09":
+	case "PKG", "C01", "C02", "C03", "C04", "C08", "C09":
 		cmdPkg(prop, *tier, *seed, *out, *stats, *replay)
 	default:
 		fmt.Fprintln(os.Stderr, "unknown property", prop)
